@@ -17,7 +17,7 @@ ASSUMPTIONS = ["an upload error reply makes the library raise by design; the rai
                "small generation batches (the statement's quantifier); the production batch (812) is used in a few thorough histories",
                "histories are sampled"]
 REQUIRED = ["histories", "checkpoints", "uploads_seen", "keys_offered", "keys_confirmed", "unconfirmed_uploads", "reoffers_seen",
-            "keys_consumed", "replays", "restarts", "signatures_verified", "error_replies", "overlap_cases", "other_requests_during_upload"]
+            "keys_consumed", "replays", "restarts", "signatures_verified", "error_replies", "overlap_cases", "other_requests_during_upload", "signed_prekey_checks"]
 TIMEOUT = {"quick": 600, "thorough": 7200}
 
 EVENTS = ["login", "ask-keys", "ask-keys-overlap", "other-requests-during-upload", "ask-keys-lost-reply", "ask-keys-error", "disconnect", "restart", "peer-first-message", "replay-first-message",
@@ -31,6 +31,7 @@ def hexid(b):
 class Model(object):
     def __init__(self):
         self.offered = {}        # id -> pub (bytes, 32) of every key ever offered
+        self.signed_offered = {} # signed prekey id -> pub
         self.upload_of = {}      # upload iq id -> [ids]
         self.confirmed = set()   # ids whose upload result reached the client
         self.consumed = set()    # ids handed out by the server and used in a delivered first message
@@ -89,6 +90,11 @@ def checkpoint(acc, W, A, model, w, where):
         if hexid(up["registration"]) != regid:
             ok = bad("upload-registration-id", "upload carries registration id %d, the account has %d" % (hexid(up["registration"]), regid))
         sk_id, sk_val, sk_sig = up["skey"]
+        # a signed prekey id names one key for ever: the server (and peers that fetched it) hold what was offered first
+        prev_sk = model.signed_offered.get(hexid(sk_id))
+        if prev_sk is not None and prev_sk != sk_val:
+            ok = bad("signed-id-offered-with-two-keys", "signed prekey id %d was offered to the server with two different keys (the first one is gone locally)" % hexid(sk_id))
+        model.signed_offered[hexid(sk_id)] = sk_val
         try:
             good = Curve.verifySignature(DjbECPublicKey(ident), b"\x05" + sk_val, sk_sig)
         except Exception as e:  # noqa
@@ -109,6 +115,18 @@ def checkpoint(acc, W, A, model, w, where):
                 if i not in model.confirmed:
                     model.confirmed.add(i)
                     acc.count("keys_confirmed")
+    # the signed prekey the server holds (latest upload) is the same key the local store holds under that id
+    if uploads:
+        sk_id, sk_val, _ = uploads[-1]["skey"]
+        acc.count("signed_prekey_checks")
+        try:
+            st_ = c.manager()._store
+            rec = st_.loadSignedPreKey(hexid(sk_id)) if st_.containsSignedPreKey(hexid(sk_id)) else None
+            have = rec.getKeyPair().getPublicKey().serialize()[1:] if rec is not None else None
+        except Exception as e:  # noqa
+            have = "<%s>" % type(e).__name__
+        if have != sk_val:
+            ok = bad("signed-prekey-not-in-store", "signed prekey id %d offered to the server is %s in the local store" % (hexid(sk_id), "missing" if have is None else "another key"))
     allk, pending = store_keys(c)
     # pending-upload set == keys in the store that no confirmed upload contained
     want_pending = set(i for i in allk if i not in model.confirmed)
@@ -140,6 +158,11 @@ def one_history(acc, seed, tag, batch=None):
     W.add_client(P)
     n = r.randint(5, 30)
     events = ["login"] + [r.choice(EVENTS) for _ in range(n - 1)]
+    if r.random() < 0.25:
+        # the very first upload of the account is never confirmed, and the process may die right then
+        events[0] = "login-lost-reply"
+        if r.random() < 0.6:
+            events.insert(1, "restart")
     w = {"tag": tag, "batch": batch, "events": events}
     model = Model()
     state = {"pkmsg": None, "peer_ready": False, "markers": 0, "delivered_before": 0}
